@@ -154,6 +154,51 @@ def goodRun (pats : List Pattern) : Nat → Prog → Bool
        | .ok (p', true) => goodRun pats n p'
        | _ => true)
 
+/-! ### Topological order (side condition of the termination theorem; computed by the driver for every real graph) -/
+
+/-- All tracers of a pytree are below `n`, and there are no nested graphs in it. -/
+def toksLt (n : Nat) (v : List Tok) : Bool :=
+  v.all (fun t => match t with | .ref j => decide (j < n) | .gref _ => false | _ => true)
+
+def App.operands (a : App) : List (List Tok) := a.pre ++ a.args ++ a.kwargs.map (·.2) ++ a.deps
+
+def App.operandsLt (a : App) (n : Nat) : Bool := a.operands.all (toksLt n)
+
+/-- Operands before consumers, no nested graphs (decidable; computed by the driver for every real graph). -/
+def Store.topo (S : Store) : Bool :=
+  (List.range S.nodes.length).all (fun i =>
+    match S.nodes[i]? with
+    | some ⟨_, .app a⟩ => a.operandsLt i
+    | some ⟨_, .proj src _⟩ => decide (src < i)
+    | _ => true)
+
+/-- The program is a graph over a topologically ordered store without nested graphs (decidable; computed by the driver). -/
+def Prog.topoOK (p : Prog) : Bool :=
+  p.store.topo &&
+    (match p.top with
+     | [.gref k] =>
+       match p.store.graphs[k]? with
+       | some g => toksLt p.store.nodes.length g.output
+       | none => false
+     | _ => false)
+
+/-- Every pass of the run starts from a graph over a topologically ordered store. -/
+def fuelRun (pats : List Pattern) : Nat → Prog → Bool
+  | 0, _ => true
+  | n + 1, p =>
+    p.topoOK &&
+      (match pass pats p.fuel p with
+       | .ok (p', true) => fuelRun pats n p'
+       | _ => true)
+
+/-- The first `n` passes all report `changed`. -/
+def allChanged (pats : List Pattern) : Nat → Prog → Bool
+  | 0, _ => true
+  | n + 1, p =>
+    match pass pats p.fuel p with
+    | .ok (p', true) => allChanged pats n p'
+    | _ => false
+
 /-! ### The laws the patterns rely on -/
 
 /-- `f` is the value of the tracer a pattern is bound to: an `Import` followed by `GetAttr`s (`rpath`: last attribute first). -/
